@@ -394,4 +394,233 @@ theorem timerP_ind (s : BP α) (hs : stepCore s.toks = true) : Ind (timerP (α :
             · intro b; simp only [hq, Bool.false_and]
             · ind_auto
 
+/-! ### The step loop -/
+
+theorem stepOne_ind (s : BP α) (hs : stepCore s.toks = true) : Ind (stepOne (α := α)) s := by
+  unfold stepOne
+  refine Ind.bind (m := (do
+    match ← peekK with
+    | some .at => withRecover ingredientP
+    | some .hash => withRecover cookwareP
+    | some .tilde => withRecover timerP
+    | _ => return none : P α (Option (Ev α)))) ?_ ?_
+  · refine Ind.bindRO peekK_indA rfl ?_
+    intro k
+    split
+    · exact Ind.withRecover (ingredientP_ind s hs)
+    · exact Ind.withRecover (cookwareP_ind s hs)
+    · exact Ind.withRecover (timerP_ind s hs)
+    · exact Ind.pure _ _
+  · refine (?_ : IndA _).all _
+    ind_auto
+
+theorem stepLoop_ind (fuel : Nat) (s : BP α) (hs : stepCore s.toks = true) : Ind (stepLoop (α := α) fuel) s := by
+  induction fuel generalizing s with
+  | zero =>
+    unfold stepLoop
+    refine (?_ : IndA _).all _
+    ind_auto
+  | succ fuel ih =>
+    unfold stepLoop
+    refine Ind.bindRO restToks_indA rfl ?_
+    intro r
+    split
+    · exact Ind.pure _ _
+    · refine Ind.bindS (stepOne_ind s hs) (Q := fun _ _ => True) trivial ?_
+      intro _ s1 ht1 _
+      exact ih s1 (by rw [ht1]; exact hs)
+
+theorem parseStep_ind (s : BP α) (hs : stepCore s.toks = true) : Ind (parseStep (α := α)) s := by
+  unfold parseStep
+  refine Ind.bindS ((pushEv_indA _).all s) (Q := fun _ _ => True) trivial ?_
+  intro _ s1 ht1 _
+  refine Ind.bindRO restToks_indA rfl ?_
+  intro r
+  refine Ind.bind (stepLoop_ind _ s1 (by rw [ht1]; exact hs)) ?_
+  exact (pushEv_indA _).all _
+
+theorem parseMultilineBlock_ind (s : BP α) (hs : stepCore s.toks = true) :
+    Ind (parseMultilineBlock (α := α)) s := by
+  unfold parseMultilineBlock
+  refine Ind.bindRO allToks_indA rfl ?_
+  intro all
+  split
+  · refine (?_ : IndA _).all _
+    ind_auto
+  · refine Ind.bindRO peekK_indA rfl ?_
+    intro k
+    split
+    · exact parseTextBlock_indA.all s
+    · exact parseStep_ind s hs
+
+/-! ### MODES: the `>>` filter of `parse_block` -/
+
+/-- the key of a `>>` line: the text between the `>>` and the first `:` -/
+def metaKeyOf (ts : List Tok) : Option Text :=
+  match ts with
+  | t0 :: rest =>
+    if t0.kind = .metaStart then
+      match rest.findIdx? (fun t => t.kind == .colon) with
+      | some p => some (buildText t0.stop (rest.take p))
+      | none => none
+    else none
+  | [] => none
+
+/-- the block is not a `>> [key]: value` line -/
+def metaKeyCore (cs : CharSpec) (ts : List Tok) : Bool :=
+  match metaKeyOf ts with
+  | some key => !isConfigKey cs key
+  | none => true
+
+theorem bpText_fst (off : Nat) (toks : List Tok) (s : BP α) : (bpText off toks s).1 = buildText off toks := by
+  unfold bpText
+  split <;> rfl
+
+theorem meta_key_inj {k k' v v' : Text} (h : some (Ev.metadata (α := α) k v) = some (Ev.metadata k' v')) :
+    k = k' := by
+  simp only [Option.some.injEq, Ev.metadata.injEq] at h
+  exact h.1
+
+theorem metadataEntry_key (s : BP α) (hc : s.cur = 0) (key value : Text)
+    (h : (metadataEntry s).1 = some (.metadata key value)) : metaKeyOf s.toks = some key := by
+  obtain ⟨toks, cur, ext, cs, evs, panic⟩ := s
+  dsimp only at hc
+  subst hc
+  unfold metadataEntry at h
+  rw [P_bind_run, consumeK_run] at h
+  dsimp only at h
+  cases toks with
+  | nil =>
+    have h' : (none : Option (Ev α)) = some (.metadata key value) := h
+    cases h'
+  | cons t0 rest =>
+    simp only [List.getElem?_cons_zero] at h
+    unfold metaKeyOf
+    by_cases hk : t0.kind = .metaStart
+    · simp only [hk, if_true] at h ⊢
+      rw [P_bind_run, currentOffset_run, P_bind_run, untilK_run] at h
+      dsimp only at h
+      have hd : List.drop (0 + 1) (t0 :: rest) = rest := rfl
+      rw [hd] at h
+      cases hf : rest.findIdx? (fun t => t.kind == .colon) with
+      | none =>
+        rw [hf] at h
+        have h' : (none : Option (Ev α)) = some (.metadata key value) := h
+        cases h'
+      | some p =>
+        rw [hf] at h
+        dsimp only at h
+        rw [P_bind_run, bpText_fst] at h
+        have ho : offAt (t0 :: rest) (0 + 1) = t0.stop := offAt_succ (ts := t0 :: rest) (i := 0) rfl
+        rw [ho] at h
+        show some (buildText t0.stop (rest.take p)) = some key
+        simp only [P_bind_run] at h
+        split at h
+        · rw [meta_key_inj h]
+        · split at h
+          · rw [meta_key_inj h]
+          · rw [meta_key_inj h]
+    · simp only [hk, if_false] at h
+      have h' : (none : Option (Ev α)) = some (.metadata key value) := h
+      cases h'
+
+theorem Ind.getBind {β : Type} {f : BP α → P α β} {s : BP α} (h1 : ∀ e, f (s.withExt e) = f s)
+    (h2 : Ind (f s) s) : Ind (get >>= f) s := by
+  have run : ∀ s' : BP α, (get >>= f) s' = f s' s' := fun _ => rfl
+  constructor
+  · intro e; rw [run, run, h1]; exact h2.ext e
+  · rw [run]; exact h2.toks
+  · rw [run]; exact h2.cs
+
+theorem parseBlock_ind (oldStyle : Bool) (s : BP α) (hc : s.cur = 0)
+    (hm : metaKeyCore s.cs s.toks = true) (hs : stepCore s.toks = true) :
+    Ind (parseBlock (α := α) oldStyle) s := by
+  unfold parseBlock
+  refine Ind.bindS (Q := fun _ _ => True) ?_ trivial ?_
+  · refine Ind.bindRO peekK_indA rfl ?_
+    intro k
+    split
+    · apply Ind.withRecover
+      refine Ind.bindS' (metadataEntry_indA.all s) (Q := fun r _ => r = (metadataEntry s).1) rfl ?_
+      intro r s1 ht1 hcs hr
+      split
+      · rename_i key value
+        have hkey := metadataEntry_key s hc key value hr.symm
+        have hnc : isConfigKey s1.cs key = false := by
+          unfold metaKeyCore at hm
+          rw [hkey] at hm
+          rw [hcs]
+          simpa using hm
+        refine Ind.getBind (fun _ => rfl) ?_
+        dsimp only
+        refine Ind.hasExtBind ?_ ?_
+        · intro b e
+          simp only [hnc, Bool.false_and]
+        · refine (?_ : IndA _).all _
+          ind_auto
+      · exact Ind.pure _ _
+    · exact Ind.withRecover (sectionP_indA.all s)
+    · exact Ind.pure _ _
+  · intro r s1 ht1 _
+    cases r with
+    | some ev => exact (pushEv_indA _).all _
+    | none => exact parseMultilineBlock_ind s1 (by rw [ht1]; exact hs)
+
+/-- the block uses none of the syntaxes that an extension reinterprets -/
+def UsesNone (cs : CharSpec) (block : List Tok) : Bool := metaKeyCore cs block && stepCore block
+
+/-- what `runBlock` runs -/
+def runBlockBody (oldStyle : Bool) (block : List Tok) : P α Unit :=
+  (if block.isEmpty then panicWith "BlockParser::new: empty tokens" else pure ()) >>= fun _ =>
+  parseBlock oldStyle >>= fun _ =>
+  get >>= fun s =>
+  if s.cur ≠ s.toks.length then panicWith "Block tokens not parsed" else pure ()
+
+theorem runBlock_eq (cs : CharSpec) (e : Ext) (oldStyle : Bool) (block : List Tok) (evs : Array (Ev α))
+    (p : Option String) :
+    runBlock cs e oldStyle block evs p =
+      ((runBlockBody oldStyle block ⟨block, 0, e, cs, evs, p⟩).2.evs,
+       (runBlockBody oldStyle block ⟨block, 0, e, cs, evs, p⟩).2.panic) := by
+  unfold runBlock runBlockBody
+  by_cases hb : block.isEmpty = true
+  · simp only [hb, if_true]; rfl
+  · simp only [hb, Bool.false_eq_true, if_false]; rfl
+
+theorem panicWith_cur (site : String) (s : BP α) : (panicWith site s).2.cur = s.cur := by
+  unfold panicWith
+  show (if s.panic.isNone then { s with panic := some site } else s).cur = s.cur
+  split <;> rfl
+
+theorem runBlockBody_ind (oldStyle : Bool) (s : BP α) (hc : s.cur = 0) (h : UsesNone s.cs s.toks = true) :
+    Ind (runBlockBody (α := α) oldStyle s.toks) s := by
+  unfold UsesNone at h
+  simp only [Bool.and_eq_true] at h
+  unfold runBlockBody
+  have hp : IndA (if s.toks.isEmpty then panicWith "BlockParser::new: empty tokens" else pure () : P α Unit) := by
+    ind_auto
+  refine Ind.bindS' (hp.all s) (Q := fun _ s' => s'.cur = s.cur) ?_ ?_
+  · unfold Sat
+    split
+    · exact panicWith_cur _ s
+    · rfl
+  · intro _ s1 ht1 hcs1 hc1
+    refine Ind.bind (parseBlock_ind oldStyle s1 (by rw [hc1, hc]) (by rw [hcs1, ht1]; exact h.1)
+      (by rw [ht1]; exact h.2)) ?_
+    refine (?_ : IndA _).all _
+    ind_auto
+
+/-- C02, parser part, one block: under `UsesNone` the events and the panic flag of a block do not
+    depend on the extension set (any two raw bit patterns) -/
+theorem runBlock_ext_irrelevant (cs : CharSpec) (e₁ e₂ : Ext) (oldStyle : Bool) (block : List Tok)
+    (evs : Array (Ev α)) (p : Option String) (h : UsesNone cs block = true) :
+    runBlock cs e₁ oldStyle block evs p = runBlock cs e₂ oldStyle block evs p := by
+  rw [runBlock_eq, runBlock_eq]
+  have hi := runBlockBody_ind (α := α) oldStyle ⟨block, 0, e₁, cs, evs, p⟩ rfl h
+  have := hi.ext e₂
+  have e0 : (⟨block, 0, e₁, cs, evs, p⟩ : BP α).withExt e₂ = ⟨block, 0, e₂, cs, evs, p⟩ := rfl
+  rw [e0] at this
+  dsimp only at this
+  rw [this]
+  rfl
+
 end Cook
